@@ -102,3 +102,139 @@ func c02r5(c *Ctx, r *Report) {
 	}
 	r.floor("byte searches for a pattern character", nBase, 2)
 }
+
+// c02r6: the folded text the later phases read is the text the first phase compared.
+//
+// FuzzyMatchV2 folds each character (case, accents) in a local and decides "this character matches
+// the pattern" on that local; phases 3 and 4 compare the pattern against the array T again. Every
+// folded value the local can hold at the comparison must therefore have been stored back into T.
+func c02r6(c *Ctx, r *Report) {
+	l := c.L
+	r.rule("C02-R6", "D (value agreement between a local and the array it came from)", "P1",
+		"in every function of package algo that ranges over a carved rune array T, modifies the element in a local and compares the local with a pattern character: each value the local can have at that comparison is the element as loaded or a value that was stored back into T at the same index",
+		"phase 2 finds a match on the folded character while phases 3/4 see the unfolded one: bogus match ranges, index out of range in the back-trace")
+	a32 := l.Fn("algo", "alloc32")
+	if a32 == nil {
+		r.unest("anchors", token.NoPos, nil, "anchor alloc32", "cannot resolve")
+		return
+	}
+	nCmp := 0
+	for _, fn := range l.AllFuncs() {
+		if fn.Pkg != l.pkg("algo") {
+			continue
+		}
+		carved := map[ssa.Value]bool{}
+		eachInstr(fn, func(in ssa.Instruction) {
+			if ex, ok := in.(*ssa.Extract); ok && ex.Index == 1 {
+				if call, ok := ex.Tuple.(*ssa.Call); ok && call.Common().StaticCallee() == a32 {
+					carved[ex] = true
+				}
+			}
+		})
+		if len(carved) == 0 {
+			continue
+		}
+		// element loads T[i] and stores T[i] = v, keyed by (T, i)
+		type cell struct{ arr, idx ssa.Value }
+		loads := map[ssa.Value]cell{}
+		stored := map[cell]map[ssa.Value]bool{}
+		eachInstr(fn, func(in ssa.Instruction) {
+			switch x := in.(type) {
+			case *ssa.UnOp:
+				if ia, ok := x.X.(*ssa.IndexAddr); ok && x.Op == token.MUL && carved[ia.X] {
+					loads[x] = cell{ia.X, ia.Index}
+				}
+			case *ssa.Store:
+				if ia, ok := x.Addr.(*ssa.IndexAddr); ok && carved[ia.X] {
+					k := cell{ia.X, ia.Index}
+					if stored[k] == nil {
+						stored[k] = map[ssa.Value]bool{}
+					}
+					stored[k][x.Val] = true
+				}
+			}
+		})
+		if len(stored) == 0 {
+			continue
+		}
+		// comparisons local == <pattern character> where the local derives from an element load
+		eachInstr(fn, func(in ssa.Instruction) {
+			b, ok := in.(*ssa.BinOp)
+			if !ok || b.Op != token.EQL {
+				return
+			}
+			for _, side := range []ssa.Value{b.X, b.Y} {
+				phi, ok := side.(*ssa.Phi)
+				if !ok {
+					continue
+				}
+				// which cell does it come from?
+				var from *cell
+				seen := map[ssa.Value]bool{}
+				var find func(v ssa.Value, d int)
+				find = func(v ssa.Value, d int) {
+					if seen[v] || d > 6 {
+						return
+					}
+					seen[v] = true
+					if c, ok := loads[v]; ok {
+						cc := c
+						from = &cc
+						return
+					}
+					switch x := v.(type) {
+					case *ssa.Phi:
+						for _, e := range x.Edges {
+							find(e, d+1)
+						}
+					case *ssa.BinOp:
+						find(x.X, d+1)
+					case *ssa.Call:
+						for _, a := range x.Call.Args {
+							find(a, d+1)
+						}
+					}
+				}
+				find(phi, 0)
+				if from == nil || stored[*from] == nil {
+					continue
+				}
+				nCmp++
+				okAll := true
+				var missing ssa.Value
+				vis := map[ssa.Value]bool{}
+				var check func(v ssa.Value) bool
+				check = func(v ssa.Value) bool {
+					if vis[v] {
+						return true
+					}
+					vis[v] = true
+					if c, ok := loads[v]; ok && c == *from {
+						return true
+					}
+					if stored[*from][v] {
+						return true
+					}
+					if p, ok := v.(*ssa.Phi); ok {
+						for _, e := range p.Edges {
+							if !check(e) {
+								return false
+							}
+						}
+						return true
+					}
+					missing = v
+					return false
+				}
+				okAll = check(phi)
+				key := fmt.Sprintf("%s:compared character %s is what the array holds", relName(fn), phi.Name())
+				if okAll {
+					r.ok(key, b.Pos(), fn, "every folded value of the compared local was stored back into the array")
+				} else {
+					r.bad(key, b.Pos(), fn, "folded values are stored back", fmt.Sprintf("the value %s (%s) can reach the comparison without having been stored into the array: later phases compare against the unfolded character", missing.Name(), l.pos(missing.Pos())))
+				}
+			}
+		})
+	}
+	r.floor("comparisons of a folded local taken from a carved rune array", nCmp, 1)
+}
